@@ -55,7 +55,7 @@ def plan(tier, seed):
                 o.pop('mask', None)
             iters = int(rng.choice([1, 2, 3, 5, 10])) if kind != 'cbmm' else int(rng.choice([1, 2, 3]))
             cases.append(dict(lane='fit', kind=kind, cls='gauss' if cls == 'short' else cls, K=K, N=N, D=D, lead=lead, dtype=dtype,
-                              init=init, iters=iters, opts=o, rs=[seed, 1, i]))
+                              init=init, iters=iters, opts=o, silent_bin=bool(lead and r % 6 == 5), rs=[seed, 1, i]))
             i += 1
     # single precision throughout (complex64 / float32 data with an array start) on rank-deficient classes in the largest dimensions,
     # short fits: products of floored eigenvalues / tiny norms leave the float32 range here and nowhere else, and a degenerate last
@@ -110,6 +110,8 @@ def tol_for(case):
 def run_fit(case, R):
     s = scen.build(case)
     kind = s.kind
+    if case.get('silent_bin') and s.lead and kind not in models.REAL:
+        s.data['y'][(0,) * len(s.lead)] = 0            # a silent frequency bin / batch entry: every frame of the first slice is the zero vector
     sig = ('fit', kind, case['cls'], case['dtype'], s.K, s.D, s.N, case['lead'], case['init'], case['opts'])
     try:
         with instr.options(**s.copts), instr.capture() as events:
